@@ -327,6 +327,68 @@ func showSpecs(thorough bool) []specCase {
 		}
 		out = append(out, specCase{fmt.Sprintf("C19/show/overlap/variant=%d", variant), g})
 	}
+	// a package that declares a provider-set variable merely as another name for a set of another package: it need not
+	// import wire at all, and its variable is a provider set like any other
+	for variant := 0; variant < 2; variant++ {
+		variant := variant
+		g := &GraphSpec{}
+		g.custom = func(b *ir.Builder) *ir.Program {
+			p, lib := b.Root, b.Lib
+			ta, tb := b.Leaf(lib, "A"), b.Leaf(lib, "B")
+			set := &ir.Set{Pkg: lib, Name: "Set", Items: []*ir.Item{ir.FuncItem(&ir.Func{Pkg: lib, Name: "PA", Out: ta}), ir.FuncItem(&ir.Func{Pkg: lib, Name: "PB", Params: []*ir.Type{ta}, Out: tb})}}
+			home := &ir.Pkg{Name: "app", Rel: "app"}
+			if variant == 1 {
+				home = p
+			}
+			alias := &ir.Set{Pkg: home, Name: "AppSet", Items: []*ir.Item{ir.SetRef(set)}, AliasOf: set}
+			z := b.Leaf(p, "Z")
+			return &ir.Program{Root: p, ExtraSets: []*ir.Set{alias}, Injectors: []*ir.Injector{{Name: "InitZ", Out: z, Items: []*ir.Item{ir.FuncItem(&ir.Func{Pkg: p, Name: "PZ", Out: z})}}}}
+		}
+		out = append(out, specCase{fmt.Sprintf("C19/show/alias-of-foreign-set/variant=%d", variant), g})
+	}
+	// wire.FieldsOf over a struct the set does not provide (an outside input), listing several fields, with consumers
+	// of the field types: everything is an output given that struct alone
+	for ptr := 0; ptr < 2; ptr++ {
+		for nf := 2; nf <= 3; nf++ {
+			for cons := 1; cons < 8; cons++ {
+				if nf == 2 && cons >= 4 {
+					continue
+				}
+				ptr, nf, cons := ptr, nf, cons
+				g := &GraphSpec{}
+				g.custom = func(b *ir.Builder) *ir.Program {
+					p := b.Root
+					var fields []*ir.Field
+					var names []string
+					var ftypes []*ir.Type
+					for i := 0; i < nf; i++ {
+						ft := b.Leaf(p, fmt.Sprintf("FT%d", i))
+						ftypes = append(ftypes, ft)
+						fields = append(fields, &ir.Field{Name: fmt.Sprintf("F%d", i), T: ft})
+						names = append(names, fmt.Sprintf("F%d", i))
+					}
+					cfgT := b.Agg(p, "Config", fields...)
+					items := []*ir.Item{ir.FieldsOfItem(cfgT, ptr == 1, names...)}
+					var mids []*ir.Type
+					for i := 0; i < nf; i++ {
+						if cons&(1<<uint(i)) == 0 {
+							continue
+						}
+						mt := ir.Ptr(b.Leaf(p, fmt.Sprintf("M%d", i)))
+						mids = append(mids, mt)
+						items = append(items, ir.FuncItem(&ir.Func{Pkg: p, Name: fmt.Sprintf("NewM%d", i), Params: []*ir.Type{ftypes[i]}, Out: mt}))
+					}
+					app := b.Leaf(p, "App")
+					items = append(items, ir.FuncItem(&ir.Func{Pkg: p, Name: "NewApp", Params: mids, Out: app}))
+					set := &ir.Set{Pkg: p, Name: "AppSet", Items: items}
+					z := b.Leaf(p, "Z")
+					return &ir.Program{Root: p, ExtraSets: []*ir.Set{set}, ExtraTypes: []*ir.Type{cfgT},
+						Injectors: []*ir.Injector{{Name: "InitZ", Out: z, Items: []*ir.Item{ir.FuncItem(&ir.Func{Pkg: p, Name: "PZ", Out: z})}}}}
+				}
+				out = append(out, specCase{fmt.Sprintf("C19/show/fields-of-outside-struct/ptr=%d/fields=%d/consumers=%03b", ptr, nf, cons), g})
+			}
+		}
+	}
 	return out
 }
 
